@@ -751,102 +751,102 @@ Qed.
 Lemma nsd_ncmpio_getput_zero_req__MPI_File_write_partial : no_silent_drop_except link_sites (site_of "ncmpio_wait.c:ncmpio_getput_zero_req:MPI_File_write" io_sites) [] bad_link_ids.
 Proof. apply no_silent_drop_except_intro; vm_compute; reflexivity. Qed.
 
-Lemma chain_enddef_header_write : chain_reaches_api link_sites (chain_of "enddef: header write").
+Lemma ch_enddef_header_write : chain_reaches_api link_sites (chain_of "enddef: header write").
 Proof. apply chain_reaches_api_intro; [vm_compute; reflexivity | apply forallb_hops_bad; vm_compute; reflexivity]. Qed.
 
-Lemma chain__enddef_header_write : chain_reaches_api link_sites (chain_of "_enddef: header write").
+Lemma ch__enddef_header_write : chain_reaches_api link_sites (chain_of "_enddef: header write").
 Proof. apply chain_reaches_api_intro; [vm_compute; reflexivity | apply forallb_hops_bad; vm_compute; reflexivity]. Qed.
 
-Lemma chain_put_collective_numrecs : chain_reaches_api link_sites (chain_of "put (collective): numrecs").
+Lemma ch_put_collective_numrecs : chain_reaches_api link_sites (chain_of "put (collective): numrecs").
 Proof. apply chain_reaches_api_intro; [vm_compute; reflexivity | apply forallb_hops_bad; vm_compute; reflexivity]. Qed.
 
-Lemma chain_sync_numrecs_numrecs : chain_reaches_api link_sites (chain_of "sync_numrecs: numrecs").
+Lemma ch_sync_numrecs_numrecs : chain_reaches_api link_sites (chain_of "sync_numrecs: numrecs").
 Proof. apply chain_reaches_api_intro; [vm_compute; reflexivity | apply forallb_hops_bad; vm_compute; reflexivity]. Qed.
 
-Lemma chain_sync_numrecs : chain_reaches_api link_sites (chain_of "sync: numrecs").
+Lemma ch_sync_numrecs : chain_reaches_api link_sites (chain_of "sync: numrecs").
 Proof. apply chain_reaches_api_intro; [vm_compute; reflexivity | apply forallb_hops_bad; vm_compute; reflexivity]. Qed.
 
-Lemma chain_end_indep_data_numrecs : chain_reaches_api link_sites (chain_of "end_indep_data: numrecs").
+Lemma ch_end_indep_data_numrecs : chain_reaches_api link_sites (chain_of "end_indep_data: numrecs").
 Proof. apply chain_reaches_api_intro; [vm_compute; reflexivity | apply forallb_hops_bad; vm_compute; reflexivity]. Qed.
 
-Lemma chain_close_independent_mode_numrecs : chain_reaches_api link_sites (chain_of "close (independent mode): numrecs").
+Lemma ch_close_independent_mode_numrecs : chain_reaches_api link_sites (chain_of "close (independent mode): numrecs").
 Proof. apply chain_reaches_api_intro; [vm_compute; reflexivity | apply forallb_hops_bad; vm_compute; reflexivity]. Qed.
 
-Lemma chain_wait_all_numrecs_refuted : ~ chain_reaches_api link_sites (chain_of "wait_all: numrecs").
+Lemma ch_wait_all_numrecs_refuted : ~ chain_reaches_api link_sites (chain_of "wait_all: numrecs").
 Proof. apply (chain_refute (chain_of "wait_all: numrecs") 2 "req_commit" "wait_getput"); vm_compute; reflexivity. Qed.
 
-Lemma chain_wait_all_numrecs_partial : chain_reaches_api_except link_sites (chain_of "wait_all: numrecs") bad_link_ids.
+Lemma ch_wait_all_numrecs_partial : chain_reaches_api_except link_sites (chain_of "wait_all: numrecs") bad_link_ids.
 Proof. apply chain_reaches_api_except_intro; vm_compute; reflexivity. Qed.
 
-Lemma chain_enddef_after_redef_move_fixed : chain_reaches_api link_sites (chain_of "enddef after redef: move fixed").
+Lemma ch_enddef_after_redef_move_fixed : chain_reaches_api link_sites (chain_of "enddef after redef: move fixed").
 Proof. apply chain_reaches_api_intro; [vm_compute; reflexivity | apply forallb_hops_bad; vm_compute; reflexivity]. Qed.
 
-Lemma chain_enddef_after_redef_move_records : chain_reaches_api link_sites (chain_of "enddef after redef: move records").
+Lemma ch_enddef_after_redef_move_records : chain_reaches_api link_sites (chain_of "enddef after redef: move records").
 Proof. apply chain_reaches_api_intro; [vm_compute; reflexivity | apply forallb_hops_bad; vm_compute; reflexivity]. Qed.
 
-Lemma chain_enddef_fill_new_variables : chain_reaches_api link_sites (chain_of "enddef: fill new variables").
+Lemma ch_enddef_fill_new_variables : chain_reaches_api link_sites (chain_of "enddef: fill new variables").
 Proof. apply chain_reaches_api_intro; [vm_compute; reflexivity | apply forallb_hops_bad; vm_compute; reflexivity]. Qed.
 
-Lemma chain_fill_var_rec : chain_reaches_api link_sites (chain_of "fill_var_rec").
+Lemma ch_fill_var_rec : chain_reaches_api link_sites (chain_of "fill_var_rec").
 Proof. apply chain_reaches_api_intro; [vm_compute; reflexivity | apply forallb_hops_bad; vm_compute; reflexivity]. Qed.
 
-Lemma chain_fill_var_rec_numrecs : chain_reaches_api link_sites (chain_of "fill_var_rec: numrecs").
+Lemma ch_fill_var_rec_numrecs : chain_reaches_api link_sites (chain_of "fill_var_rec: numrecs").
 Proof. apply chain_reaches_api_intro; [vm_compute; reflexivity | apply forallb_hops_bad; vm_compute; reflexivity]. Qed.
 
-Lemma chain_put_blocking : chain_reaches_api link_sites (chain_of "put (blocking)").
+Lemma ch_put_blocking : chain_reaches_api link_sites (chain_of "put (blocking)").
 Proof. apply chain_reaches_api_intro; [vm_compute; reflexivity | apply forallb_hops_bad; vm_compute; reflexivity]. Qed.
 
-Lemma chain_put_independent : chain_reaches_api link_sites (chain_of "put (independent)").
+Lemma ch_put_independent : chain_reaches_api link_sites (chain_of "put (independent)").
 Proof. apply chain_reaches_api_intro; [vm_compute; reflexivity | apply forallb_hops_bad; vm_compute; reflexivity]. Qed.
 
-Lemma chain_get_blocking : chain_reaches_api link_sites (chain_of "get (blocking)").
+Lemma ch_get_blocking : chain_reaches_api link_sites (chain_of "get (blocking)").
 Proof. apply chain_reaches_api_intro; [vm_compute; reflexivity | apply forallb_hops_bad; vm_compute; reflexivity]. Qed.
 
-Lemma chain_get_independent : chain_reaches_api link_sites (chain_of "get (independent)").
+Lemma ch_get_independent : chain_reaches_api link_sites (chain_of "get (independent)").
 Proof. apply chain_reaches_api_intro; [vm_compute; reflexivity | apply forallb_hops_bad; vm_compute; reflexivity]. Qed.
 
-Lemma chain_put_zero_length_participation : chain_reaches_api link_sites (chain_of "put, zero-length participation").
+Lemma ch_put_zero_length_participation : chain_reaches_api link_sites (chain_of "put, zero-length participation").
 Proof. apply chain_reaches_api_intro; [vm_compute; reflexivity | apply forallb_hops_bad; vm_compute; reflexivity]. Qed.
 
-Lemma chain_get_zero_length_participation : chain_reaches_api link_sites (chain_of "get, zero-length participation").
+Lemma ch_get_zero_length_participation : chain_reaches_api link_sites (chain_of "get, zero-length participation").
 Proof. apply chain_reaches_api_intro; [vm_compute; reflexivity | apply forallb_hops_bad; vm_compute; reflexivity]. Qed.
 
-Lemma chain_wait_all_refuted : ~ chain_reaches_api link_sites (chain_of "wait_all").
+Lemma ch_wait_all_refuted : ~ chain_reaches_api link_sites (chain_of "wait_all").
 Proof. apply (chain_refute (chain_of "wait_all") 2 "req_commit" "wait_getput"); vm_compute; reflexivity. Qed.
 
-Lemma chain_wait_all_partial : chain_reaches_api_except link_sites (chain_of "wait_all") bad_link_ids.
+Lemma ch_wait_all_partial : chain_reaches_api_except link_sites (chain_of "wait_all") bad_link_ids.
 Proof. apply chain_reaches_api_except_intro; vm_compute; reflexivity. Qed.
 
-Lemma chain_wait_all_one_request_per_call_refuted : ~ chain_reaches_api link_sites (chain_of "wait_all (one request per call)").
+Lemma ch_wait_all_one_request_per_call_refuted : ~ chain_reaches_api link_sites (chain_of "wait_all (one request per call)").
 Proof. apply (chain_refute (chain_of "wait_all (one request per call)") 2 "req_commit" "wait_getput"); vm_compute; reflexivity. Qed.
 
-Lemma chain_wait_all_one_request_per_call_partial : chain_reaches_api_except link_sites (chain_of "wait_all (one request per call)") bad_link_ids.
+Lemma ch_wait_all_one_request_per_call_partial : chain_reaches_api_except link_sites (chain_of "wait_all (one request per call)") bad_link_ids.
 Proof. apply chain_reaches_api_except_intro; vm_compute; reflexivity. Qed.
 
-Lemma chain_wait_independent_refuted : ~ chain_reaches_api link_sites (chain_of "wait (independent)").
+Lemma ch_wait_independent_refuted : ~ chain_reaches_api link_sites (chain_of "wait (independent)").
 Proof. apply (chain_refute (chain_of "wait (independent)") 2 "req_commit" "wait_getput"); vm_compute; reflexivity. Qed.
 
-Lemma chain_wait_independent_partial : chain_reaches_api_except link_sites (chain_of "wait (independent)") bad_link_ids.
+Lemma ch_wait_independent_partial : chain_reaches_api_except link_sites (chain_of "wait (independent)") bad_link_ids.
 Proof. apply chain_reaches_api_except_intro; vm_compute; reflexivity. Qed.
 
-Lemma chain_wait_all_zero_length_participation_refuted : ~ chain_reaches_api link_sites (chain_of "wait_all, zero-length participation").
+Lemma ch_wait_all_zero_length_participation_refuted : ~ chain_reaches_api link_sites (chain_of "wait_all, zero-length participation").
 Proof. apply (chain_refute (chain_of "wait_all, zero-length participation") 2 "req_commit" "wait_getput"); vm_compute; reflexivity. Qed.
 
-Lemma chain_wait_all_zero_length_participation_partial : chain_reaches_api_except link_sites (chain_of "wait_all, zero-length participation") bad_link_ids.
+Lemma ch_wait_all_zero_length_participation_partial : chain_reaches_api_except link_sites (chain_of "wait_all, zero-length participation") bad_link_ids.
 Proof. apply chain_reaches_api_except_intro; vm_compute; reflexivity. Qed.
 
-Lemma chain_open_header_read : chain_reaches_api link_sites (chain_of "open: header read").
+Lemma ch_open_header_read : chain_reaches_api link_sites (chain_of "open: header read").
 Proof. apply chain_reaches_api_intro; [vm_compute; reflexivity | apply forallb_hops_bad; vm_compute; reflexivity]. Qed.
 
-Lemma chain_open_header_read_variables_refuted : ~ chain_reaches_api link_sites (chain_of "open: header read (variables)").
+Lemma ch_open_header_read_variables_refuted : ~ chain_reaches_api link_sites (chain_of "open: header read (variables)").
 Proof. apply (chain_refute (chain_of "open: header read (variables)") 4 "hdr_get_NC_var" "hdr_get_uint32"); vm_compute; reflexivity. Qed.
 
-Lemma chain_open_header_read_variables_partial : chain_reaches_api_except link_sites (chain_of "open: header read (variables)") bad_link_ids.
+Lemma ch_open_header_read_variables_partial : chain_reaches_api_except link_sites (chain_of "open: header read (variables)") bad_link_ids.
 Proof. apply chain_reaches_api_except_intro; vm_compute; reflexivity. Qed.
 
-Lemma chain_put_att_in_data_mode_header_write : chain_reaches_api link_sites (chain_of "put_att in data mode: header write").
+Lemma ch_put_att_in_data_mode_header_write : chain_reaches_api link_sites (chain_of "put_att in data mode: header write").
 Proof. apply chain_reaches_api_intro; [vm_compute; reflexivity | apply forallb_hops_bad; vm_compute; reflexivity]. Qed.
 
-Lemma chain_rename_var_in_data_mode_header_write : chain_reaches_api link_sites (chain_of "rename_var in data mode: header write").
+Lemma ch_rename_var_in_data_mode_header_write : chain_reaches_api link_sites (chain_of "rename_var in data mode: header write").
 Proof. apply chain_reaches_api_intro; [vm_compute; reflexivity | apply forallb_hops_bad; vm_compute; reflexivity]. Qed.
 
